@@ -97,6 +97,21 @@ var tgtCtx = []string{
 	"[H][0]", "H[*]", "[for x in l : x if x != H]", "\"%{ for x in H }${x}%{ endfor }\"", "\"%{ if H }a%{ else }b%{ endif }\"",
 }
 
+// tgtMarkOf returns the single mark label used by a targeted scope.
+func tgtMarkOf(ctx *hcl.EvalContext) string {
+	for _, k := range hv.SortedKeys(ctx.Variables) {
+		v := ctx.Variables[k]
+		if v.IsMarked() {
+			for m := range v.Marks() {
+				if s, ok := m.(string); ok {
+					return s
+				}
+			}
+		}
+	}
+	return ""
+}
+
 func tgtExpr(r *hv.Rng) string {
 	e := tgtAtoms[r.Intn(len(tgtAtoms))]
 	depth := 1 + r.Intn(3)
